@@ -61,8 +61,11 @@ Definition judge_ctu (lo hi init : Z) (tr : list (bool * bool * Z)) (outs : list
 Definition judge_ctd (lo hi init : Z) (tr : list (bool * bool * Z)) (outs : list (bool * Z)) : bool :=
   cv_in_range lo hi outs &&
   (if (init =? 0) && pvs_ok lo hi tr then eqb_list eqb_bz outs (map (ctd_spec lo) (hists [] tr)) else true).
-Definition judge_ctud (lo hi : Z) (outs : list (bool * bool * Z)) : bool :=
-  forallb (fun o => (lo <=? snd o) && (snd o <=? hi)) outs.
+Definition eqb_bbz (a b : bool * bool * Z) : bool :=
+  Bool.eqb (fst (fst a)) (fst (fst b)) && Bool.eqb (snd (fst a)) (snd (fst b)) && (snd a =? snd b).
+Definition judge_ctud (lo hi init : Z) (tr : list (bool * bool * bool * bool * Z)) (outs : list (bool * bool * Z)) : bool :=
+  forallb (fun o => (lo <=? snd o) && (snd o <=? hi)) outs &&
+  (if init =? 0 then eqb_list eqb_bbz outs (ctud_spec_run lo hi 0 false false tr) else true).
 
 Definition judge_rtrig (tr : list bool) (outs : list bool) : bool :=
   eqb_list Bool.eqb outs (map rtrig_spec (hists [] tr)).
